@@ -10,11 +10,14 @@ import (
 	"github.com/tuneinsight/lattigo/v6/utils/bignum"
 	"github.com/tuneinsight/lattigo/v6/utils/structs"
 
+	"verif/engine"
 	"verif/uni"
 )
 
 // moreCases: the remaining copy constructors of the tree (generic containers, arbitrary-precision values,
 // samplers rebound to another randomness source).
+func engineHash(b []byte) uint64 { return engine.Hash(b) }
+
 func moreCases() []copyCase {
 	kgen := func(e *env) *rlwe.KeyGenerator { return rlwe.NewKeyGenerator(e.p) }
 	polyBytes := func(p ring.Poly) []byte {
@@ -110,29 +113,51 @@ func moreCases() []copyCase {
 			return append(a, polyBytes(p)...)
 		}},
 	}
-	cs = append(cs, copyCase{name: "ring.UniformSampler.WithPRNG", envKind: "rlwe", kind: rebind, configs: []string{"full", "lowered-ring"},
-		build: func(e *env, cfg string) interface{} {
-			r := e.p.RingQ()
-			if cfg == "lowered-ring" {
-				r = r.AtLevel(1)
+	qRing := func(e *env, cfg string) *ring.Ring {
+		switch cfg {
+		case "lowered-ring":
+			return e.p.RingQ().AtLevel(1)
+		case "N4096":
+			r, err := ring.NewRing(4096, uni.Primes(12, 50, 2))
+			if err != nil {
+				panic(err)
 			}
-			return ring.NewUniformSampler(uni.KeyedPRNG("c10-us"), r)
+			return r
+		}
+		return e.p.RingQ()
+	}
+	cs = append(cs, copyCase{name: "ring.UniformSampler.WithPRNG", envKind: "rlwe", kind: rebind, configs: []string{"full", "lowered-ring", "N4096"},
+		build: func(e *env, cfg string) interface{} {
+			return ring.NewUniformSampler(uni.KeyedPRNG("c10-us"), qRing(e, cfg))
 		},
 		copy: func(e *env, o interface{}) interface{} {
 			return o.(*ring.UniformSampler).WithPRNG(uni.KeyedPRNG("c10-us-rebound"))
 		},
 		reference: func(e *env, cfg string) interface{} {
-			r := e.p.RingQ()
-			if cfg == "lowered-ring" {
-				r = r.AtLevel(1)
-			}
-			return ring.NewUniformSampler(uni.KeyedPRNG("c10-us-rebound"), r)
+			return ring.NewUniformSampler(uni.KeyedPRNG("c10-us-rebound"), qRing(e, cfg))
 		},
 		ops: []op{readQ[0]}})
 	_ = readQ[1]
-	cs = append(cs, copyCase{name: "ringqp.UniformSampler.WithPRNG", envKind: "rlwe", kind: rebind, configs: []string{"qp"},
+	// the rebound sampler must also agree with a constructed one on rings whose rows are larger than the samplers'
+	// refill buffers (1024 bytes): Q and P halves draw alternately from one source, so the refill size is observable
+	qpRing := func(e *env, cfg string) ringqp.Ring {
+		if cfg == "qp" {
+			return *e.p.RingQP()
+		}
+		logN := map[string]int{"qp-N256": 8, "qp-N2048": 11, "qp-N8192": 13}[cfg]
+		rq, err := ring.NewRing(1<<logN, uni.Primes(logN, 50, 2))
+		if err != nil {
+			panic(err)
+		}
+		rp, err := ring.NewRing(1<<logN, uni.PrimesSkip(logN, 50, 2, 2))
+		if err != nil {
+			panic(err)
+		}
+		return ringqp.Ring{RingQ: rq, RingP: rp}
+	}
+	cs = append(cs, copyCase{name: "ringqp.UniformSampler.WithPRNG", envKind: "rlwe", kind: rebind, configs: []string{"qp", "qp-N256", "qp-N2048", "qp-N8192"},
 		build: func(e *env, cfg string) interface{} {
-			s := ringqp.NewUniformSampler(uni.KeyedPRNG("c10-usqp"), *e.p.RingQP())
+			s := ringqp.NewUniformSampler(uni.KeyedPRNG("c10-usqp"), qpRing(e, cfg))
 			return &s
 		},
 		copy: func(e *env, o interface{}) interface{} {
@@ -140,16 +165,20 @@ func moreCases() []copyCase {
 			return &s
 		},
 		reference: func(e *env, cfg string) interface{} {
-			s := ringqp.NewUniformSampler(uni.KeyedPRNG("c10-usqp-rebound"), *e.p.RingQP())
+			s := ringqp.NewUniformSampler(uni.KeyedPRNG("c10-usqp-rebound"), qpRing(e, cfg))
 			return &s
 		},
-		ops: []op{{"ReadNew", func(e *env, o interface{}) []byte {
-			p := o.(*ringqp.UniformSampler).ReadNew()
-			b, err := p.MarshalBinary()
-			if err != nil {
-				return errBytes(err)
+		ops: []op{{"ReadNew x3", func(e *env, o interface{}) []byte {
+			var out []byte
+			for k := 0; k < 3; k++ {
+				p := o.(*ringqp.UniformSampler).ReadNew()
+				b, err := p.MarshalBinary()
+				if err != nil {
+					return errBytes(err)
+				}
+				out = append(out, []byte(fmt.Sprintf("Q%d P%d:%016x;", p.LevelQ(), p.LevelP(), engineHash(b)))...)
 			}
-			return append([]byte(fmt.Sprintf("Q%d P%d:", p.LevelQ(), p.LevelP())), b...)
+			return out
 		}}}})
 	return cs
 }
